@@ -2920,10 +2920,8 @@ def check_registry(case):
     found, skipped = discover_public_names()
     reg = registry()
     missing = sorted(set(found) - set(reg) - set(EXCLUDED))
-    if missing:
-        raise HarnessError(
-            "public names without a call recipe and not in EXCLUDED (add a recipe): "
-            + ", ".join(missing))
+    # A public name without a recipe is reported in the evidence (label UNCOVERED-NEW) but is not
+    # fatal: a harmless refactoring that adds a public helper must not break the check.
     # entries that no longer name anything public (removed upstream) are reported, not fatal:
     # the recipe that calls them fails on its own if the callable is really gone
     stale = sorted((set(reg) | set(EXCLUDED)) - set(found))
@@ -2934,6 +2932,7 @@ def check_registry(case):
     labels += ["uncovered(excluded):" + n for n in sorted(EXCLUDED)]
     labels += ["skipped(enum/typeddict/exception):" + n for n in skipped]
     labels += ["stale-registry-entry:" + n for n in stale]
+    labels += ["UNCOVERED-NEW:" + n for n in missing]
     return labels, True
 
 
